@@ -12,6 +12,7 @@ package main
 // Model correspondence (ties the oracle's notion of legality to the proved bit-level model):
 //   CASE P ; <enc position> | <live> <sorted legal move set>     model: GameOver.game_over, GameOver.all_moves filtered by Inst.mv_fixed
 //   CASE M ; <enc position> ; <move> | OK|ERR|PANIC              every move a deterministic player returned, judged by Inst.mv_fixed
+//   CASE RAND ; <cfg> ; <window> ; <scale> ; <Int63 stream> ; <enc position> | <move>|PANIC    the randomised GetMove against coq/SearchRand.v
 //
 // Players: ai.MinimaxAI (Analyze, GetMove with the randomised choice, AnalyzeAll; engines are reused
 // over several positions so that table / history / response / PV hints are stale), the opening
@@ -82,6 +83,58 @@ func (o *c04Out) mcase(p *tak.Position, m tak.Move) {
 type c04Job struct {
 	desc string
 	run  func(o *c04Out)
+}
+
+// ---------- the randomised GetMove: model correspondence (CASE RAND) ----------
+//   CASE RAND ; <cfg: size depth evk nosort nonull noreduce multicut tablelen> ; <RandomizeWindow> ; <RandomizeScale> ; <Int63 stream v0,v1,...> ; <enc position> | <move> | PANIC
+// MinimaxAI.GetMove with RandomizeWindow > 0 on a fresh engine whose configuration is deterministic for the model (NoSort, no symmetry
+// de-duplication, a table of at most 4096 entries or none).  Analyze creates ai.rand from Cfg.Seed, so the values the randomised choice
+// draws are the first values of rand.NewSource(seed).Int63(): they are written into the case, and the extracted model
+// (coq/SearchRand.v: get_move) replays the whole call from them.  The returned move is also judged by the direct oracle.
+func c04RunRandModel(o *c04Out, sc srchCfg, window, scale, seed int64, pp c04Pos) {
+	cfg := ai.MinimaxConfig{Size: sc.size, Depth: sc.depth, Seed: seed, TableMem: sc.tableMem, RandomizeWindow: window, RandomizeScale: scale,
+		NoSort: sc.nosort, NoNullMove: sc.nonull, NoReduceSlides: sc.noreduce, MultiCut: sc.multicut}
+	if sc.precise() {
+		cfg.NoExtendForces = true
+	}
+	if sc.evk == 1 {
+		cfg.Evaluate = ai.EvaluateWinner
+	}
+	eng := ai.NewMinimax(cfg)
+	tlen := ai.VerifTableLen(eng)
+	if tlen > 4096 {
+		return
+	}
+	src := rand.NewSource(seed)
+	vals := make([]string, 400)
+	for i := range vals {
+		vals[i] = strconv.FormatInt(src.Int63(), 10)
+	}
+	var m tak.Move
+	pan, msg := safely(func() { m = eng.GetMove(context.Background(), pp.p) })
+	in := fmt.Sprintf("RAND ; %d %d %d %d %d %d %d %d ; %d ; %d ; %s ; %s", sc.size, sc.depth, sc.evk, b2i(sc.nosort), b2i(sc.nonull), b2i(sc.noreduce),
+		b2i(sc.multicut), tlen, window, scale, strings.Join(vals, ","), enc(pp.p))
+	o.stat("rand_model_cases", 1)
+	o.stat(fmt.Sprintf("rand_model_size_%d", sc.size), 1)
+	o.stat(fmt.Sprintf("rand_model_depth_%d", sc.depth), 1)
+	if pan {
+		// with the default scale the choice must not crash (C04); other scales are outside the option lattice: recorded, compared with the model
+		if scale == 1 {
+			o.fail("randomised-getmove-panic", fmt.Sprintf("RAND %s window=%d scale=%d seed=%d %s", sc.String(), window, scale, seed, enc(pp.p)), "panic: "+msg, "a legal move")
+		}
+		o.stat("rand_model_panics", 1)
+		o.lines = append(o.lines, fmt.Sprintf("CASE %s | PANIC", in))
+		return
+	}
+	if ok, why := c04Legal(pp.p, m); !ok {
+		o.fail("randomised-getmove-illegal", fmt.Sprintf("RAND %s window=%d scale=%d seed=%d %s", sc.String(), window, scale, seed, enc(pp.p)), "returned "+c04FmtMove(m)+": "+why, "a legal move")
+	}
+	// how often the random choice leaves Analyze's first move (input-distribution statistic)
+	cfg.RandomizeWindow = 0
+	if pv, _, _ := ai.NewMinimax(cfg).Analyze(context.Background(), pp.p); len(pv) > 0 && !m.Equal(pv[0]) {
+		o.stat("rand_model_not_pv0", 1)
+	}
+	o.lines = append(o.lines, fmt.Sprintf("CASE %s | %s", in, encMove(m)))
 }
 
 // ---------- positions ----------
@@ -1525,6 +1578,34 @@ func runC04(c *ctx) {
 	}
 	addBookModel(5, "nolines", nil, 4)
 	addBookModel(5, "emptyline", []string{"a1 e5", ""}, 4)
+
+	// ---- the randomised GetMove: model correspondence (CASE RAND) ----
+	for j := 0; j < 40*c.scale; j++ {
+		size := 3
+		if j%4 == 3 {
+			size = 4
+		}
+		sc := srchCfg{size: size, depth: 1 + r.Intn(2), evk: r.Intn(2) * r.Intn(2), nosort: true, nonull: r.Intn(2) == 0, noreduce: r.Intn(2) == 0, multicut: r.Intn(3) == 0,
+			tableMem: []int64{-1, 64, 400, 4000, 1 << 15}[r.Intn(5)]}
+		if size == 3 && r.Intn(3) == 0 {
+			sc.depth = 3
+		}
+		if r.Intn(4) == 0 { // precise
+			sc.nonull, sc.noreduce, sc.multicut = true, true, false
+		}
+		window := []int64{1, 10, 100, 1000, 1 << 20}[r.Intn(5)]
+		scale := int64(1)
+		if sc.precise() && sc.tableMem < 0 && window >= 10 && r.Intn(2) == 0 {
+			scale = []int64{2, 3, 7}[r.Intn(3)] // pv[0] scores window/scale >= 1 points first, so Int63n's argument stays positive
+		}
+		kind := []string{"opening", "middle", "middle", "nearterm", "lowres"}[r.Intn(5)]
+		pp, ok := newPos(size, kind)
+		if !ok {
+			continue
+		}
+		seed := 1 + r.Int63n(1<<30)
+		jobs = append(jobs, c04Job{desc: fmt.Sprintf("randmodel %s window=%d scale=%d", sc.String(), window, scale), run: func(o *c04Out) { c04RunRandModel(o, sc, window, scale, seed, pp) }})
+	}
 
 	// ---- Monte-Carlo ----
 	nmc := 128 * c.scale
